@@ -170,11 +170,11 @@ Qed.
 
 Lemma fibex_selects : forall s, fibex_positions (fibex_emit s) = spec_positions s.
 Proof.
-  intros s. unfold fibex_positions, spec_positions, fibex_emit, fibex_emit_with. cbn [fx_pos fx_hilo fx_len].
-  apply msf_map_ext. intros j Hj. rewrite spec_pos_closed by assumption. rewrite gsb_1_true.
+  intros s. unfold fibex_positions, spec_positions, fibex_emit. cbn [fx_pos fx_hilo fx_len].
+  apply msf_map_ext. intros j Hj. rewrite spec_pos_closed by assumption. rewrite gsb_1_false.
   destruct (s_le s); cbn [negb].
   - f_equal. lia.
-  - rewrite flip_flip. lia.
+  - now rewrite flip_flip.
 Qed.
 
 Lemma fibex_records : forall s, 1 <= s_size s <= 64 ->
@@ -182,79 +182,45 @@ Lemma fibex_records : forall s, 1 <= s_size s <= 64 ->
   fibex_reads_type (fibex_emit s) = (s_signed s && negb (s_float s), s_float s) /\
   s_size s <= fx_width (fibex_emit s).
 Proof.
-  intros s Hs. unfold fibex_emit, fibex_emit_with, fibex_reads_type, fibex_base_type.
+  intros s Hs. unfold fibex_emit, fibex_reads_type, fibex_base_type.
   cbn [fx_len fx_hilo fx_kind fx_width].
   repeat split; destruct (s_float s), (s_signed s); cbn [fst snd andb negb];
     repeat (case_if; cbn [fst snd]); try reflexivity; try lia.
 Qed.
 
-Lemma fibex_segment_selects : forall p s,
-  fibex_positions (fibex_in_frame p (fibex_emit_in p s)) = spec_positions s.
+(* multiplexed frames: the frame numbers written into a PDU placed at segment position p select the signal's
+   bits exactly when p = 0 *)
+Lemma flip_inj : forall a b, flip a = flip b -> a = b.
+Proof. intros a b H. rewrite <- (flip_flip a), <- (flip_flip b). now rewrite H. Qed.
+
+Lemma map_eq_at : forall (f g : Z -> Z) l x, map f l = map g l -> In x l -> f x = g x.
 Proof.
-  intros p s. rewrite <- fibex_selects. unfold fibex_positions, fibex_in_frame, fibex_emit_in.
-  cbn [fx_pos fx_hilo fx_len]. apply msf_map_ext. intros j Hj.
-  replace (p + (fx_pos (fibex_emit s) - p)) with (fx_pos (fibex_emit s)) by lia. reflexivity.
+  induction l as [|y l IH]; intros x H Hin; [destruct Hin|].
+  cbn [map] in H. inversion H. destruct Hin as [->|Hin]; [assumption|now apply IH].
 Qed.
 
-(* the segment computed over a part's signals starts on a byte boundary at or before every signal's first
-   byte and ends at or after every signal's last byte *)
-Definition seg_inv (acc : Z * Z) : Prop :=
-  (fst acc = -1 \/ (0 <= fst acc /\ fst acc mod 8 = 0)) /\ (snd acc = -1 \/ 0 <= snd acc).
-Definition seg_holds (acc : Z * Z) (s : signal) : Prop :=
-  0 <= fst acc <= s_start s / 8 * 8 /\ fst acc mod 8 = 0 /\ ((s_start s + s_size s - 1) / 8 + 1) * 8 <= snd acc.
-Definition sig_ok (s : signal) : Prop := 0 <= s_start s /\ 1 <= s_size s.
+Lemma in_msf_0 : forall n, 1 <= n -> In 0 (msf n).
+Proof. intros n Hn. unfold msf. apply in_map_iff. exists 0%nat. split; [reflexivity|]. apply in_seq. lia. Qed.
 
-Lemma seg_step_inv : forall acc s, sig_ok s -> seg_inv acc -> seg_inv (seg_step acc s) /\ seg_holds (seg_step acc s) s.
+Lemma fibex_segment_iff : forall p s, 1 <= s_size s ->
+  (fibex_positions (fibex_in_frame p (fibex_emit s)) = spec_positions s <-> p = 0).
 Proof.
-  intros [sp ep] s [H0 H1] [Hs He]. unfold seg_inv, seg_holds, seg_step. cbn [fst snd] in *.
-  destruct (sp =? -1) eqn:E1; destruct (s_start s / 8 * 8 <? sp) eqn:E2; cbn [orb];
-    destruct (ep =? -1) eqn:E3; destruct (ep <? ((s_start s + s_size s - 1) / 8 + 1) * 8) eqn:E4; cbn [orb];
-    repeat split; try lia.
+  intros p s Hs. split.
+  - intros H. rewrite <- fibex_selects in H. unfold fibex_positions, fibex_in_frame, fibex_emit in H.
+    cbn [fx_pos fx_hilo fx_len] in H.
+    apply (fun E => map_eq_at _ _ _ 0 E (in_msf_0 _ Hs)) in H. cbv beta in H.
+    destruct (negb (s_le s)).
+    + assert (E : flip (p + get_startbit (s_le s) (s_size s) (s_start s) (Some 1) false)
+                  = flip (get_startbit (s_le s) (s_size s) (s_start s) (Some 1) false)) by lia.
+      apply flip_inj in E. lia.
+    + apply flip_inj in H. lia.
+  - intros ->. rewrite <- fibex_selects. unfold fibex_in_frame. destruct (fibex_emit s); reflexivity.
 Qed.
 
-Lemma seg_step_keeps : forall acc s t, sig_ok t -> seg_inv acc -> seg_holds acc s -> seg_holds (seg_step acc t) s.
+Lemma fibex_mux_partial : forall sigs s, fst (seg_range (-1, -1) sigs) = 0 ->
+  fibex_positions (fibex_in_frame (fst (seg_range (-1, -1) sigs)) (fibex_emit s)) = spec_positions s.
 Proof.
-  intros [sp ep] s t [H0 H1] [Hs He] [[Ha Hb] [Hc Hd]]. unfold seg_holds, seg_step. cbn [fst snd] in *.
-  destruct (sp =? -1) eqn:E1; destruct (s_start t / 8 * 8 <? sp) eqn:E2; cbn [orb];
-    destruct (ep =? -1) eqn:E3; destruct (ep <? ((s_start t + s_size t - 1) / 8 + 1) * 8) eqn:E4; cbn [orb];
-    repeat split; try lia.
-Qed.
-
-Lemma seg_fold_keeps : forall sigs acc s, Forall sig_ok sigs -> seg_inv acc -> seg_holds acc s ->
-  seg_holds (fold_left seg_step sigs acc) s.
-Proof.
-  induction sigs as [|t r IH]; intros acc s Hall Hinv Hh; [exact Hh|].
-  inversion Hall as [|? ? Ht Hr]; subst. cbn [fold_left].
-  apply IH; [assumption | apply (seg_step_inv acc t Ht Hinv) | apply seg_step_keeps; assumption].
-Qed.
-
-Lemma seg_range_covers : forall sigs s, Forall sig_ok sigs -> In s sigs ->
-  seg_holds (seg_range (-1, -1) sigs) s.
-Proof.
-  unfold seg_range. intros sigs s Hall Hin.
-  assert (G : forall acc, seg_inv acc -> seg_holds (fold_left seg_step sigs acc) s).
-  { revert Hall Hin. induction sigs as [|t r IH]; intros Hall Hin acc Hinv; [destruct Hin|].
-    inversion Hall as [|? ? Ht Hr]; subst. cbn [fold_left].
-    destruct (seg_step_inv acc t Ht Hinv) as [Hi Hh].
-    destruct Hin as [->|Hin].
-    - apply seg_fold_keeps; assumption.
-    - apply IH; assumption. }
-  apply G. unfold seg_inv. cbn [fst snd]. split; left; reflexivity.
-Qed.
-
-(* hence every signal of the part lies inside the part's PDU: relative positions 0 .. length-1 *)
-Lemma fibex_segment_contains : forall sigs s j, Forall sig_ok sigs -> In s sigs ->
-  In j (spec_positions s) ->
-  fst (seg_range (-1, -1) sigs) <= j < snd (seg_range (-1, -1) sigs).
-Proof.
-  intros sigs s j Hall Hin Hj.
-  destruct (seg_range_covers sigs s Hall Hin) as [[Ha Hb] [Hc Hd]].
-  assert (Hok : sig_ok s) by (rewrite Forall_forall in Hall; now apply Hall).
-  destruct Hok as [H0 H1].
-  unfold spec_positions in Hj. apply in_map_iff in Hj. destruct Hj as [k [<- Hk]].
-  apply in_msf in Hk. rewrite spec_pos_closed by assumption.
-  set (sp := fst (seg_range (-1, -1) sigs)) in *. set (ep := snd (seg_range (-1, -1) sigs)) in *.
-  destruct (s_le s); unfold flip; lia.
+  intros sigs s ->. rewrite <- fibex_selects. unfold fibex_in_frame. destruct (fibex_emit s); reflexivity.
 Qed.
 
 (* ---------- CSV ---------- *)
